@@ -72,7 +72,7 @@ chk('C03', 'model_checking',
     'TLA+ declarative route-validity specification (separating-axis predicate); record validation; TLC reachability for the antecedent', '4/C03')
 
 chk('C06', 'model_checking',
-    'RouterApi.tla models the Router as the API user sees it: scene + action queue with the de-duplication rules of addShape/moveShape/deleteShape/modifyConnector, one action per public call, '
+    'RouterApi.tla models the Router as the API user sees it: scene + action queue with the de-duplication rules of addShape/moveShape (relative, and absolute = resize)/deleteShape/modifyConnector, one action per public call, '
     'transactions on and off; TLC checks for every interleaving (bounded) that the queue stays well formed and that the processed scene is what the calls add up to. Histories are behaviours of that '
     'specification (TLC simulation) replayed on one long-lived Router; RouterTrace.tla validates call sequence + the scene the code reports at every processing point; RouteInc.tla judges every route at every '
     'processing point: valid for the final scene (RouteValid), cost(incremental) <= cost(fresh router) as integer-square-root intervals, a no-op transaction changes nothing (bit-exact).',
